@@ -24,7 +24,7 @@ type Job struct {
 	Property  string   `json:"property"`
 	Thorough  bool     `json:"thorough"`
 	BaseSeed  uint64   `json:"base_seed"`
-	First     int      `json:"first"`  // run numbers first, first+stride, ...
+	First     int      `json:"first"` // run numbers first, first+stride, ...
 	Stride    int      `json:"stride"`
 	MaxRuns   int      `json:"max_runs"`
 	BudgetSec float64  `json:"budget_sec"`
